@@ -1,4 +1,30 @@
-/- driver operations of C02 (stub: no model yet) -/
+import EvoModel.Model.Rpe
 namespace Evo.Drv.C02
-def handle (_op : String) (_args : List String) : Option String := none
+open Evo
+
+/-- ops:
+  `rpe rel 2k i1 j1 … n ref-poses… n est-poses…` → `OK m id… | core…` | `E_METRICS:len` | `E_GEOMETRY` | `E_INDEX`
+       (core tokens: `S:r`, `A:c:s2:rad|deg`, `D:a:b` = |√a−√b|, `R:a:b` = |√a−√b|/√a·100)
+  `margin 2k pairs… n ref… n est…`  → smallest distance of an `is_so3` guard quantity from its threshold
+  `plan <15 common tokens> delta unit tol allPairs fromRef` → `step | step | …` or `E_FILTER` -/
+def handle (op : String) (args : List String) : Option String :=
+  match op, args with
+  | "rpe", rel :: rest => do
+      let rel ← PoseRelation.ofString? rel
+      let (pairs, rest) ← readPairs rest
+      let (ref, rest) ← readPoseList rest
+      let (est, _) ← readPoseList rest
+      match rpe rel pairs ref est with
+      | .error e => some (showMetricErr e)
+      | .ok r => some (s!"OK {r.deltaIds.length} " ++ showNats r.deltaIds ++ " | " ++ showCores r.values)
+  | "margin", rest => do
+      let (pairs, rest) ← readPairs rest
+      let (ref, rest) ← readPoseList rest
+      let (est, _) ← readPoseList rest
+      some (showRat (((rpeRots ref est pairs).map so3Margin).foldl (fun a b => if b < a then b else a) 1))
+  | "plan", rest => do
+      let o ← readRpeOpts rest
+      some (showPlan (rpePlan o))
+  | _, _ => none
+
 end Evo.Drv.C02
